@@ -374,10 +374,38 @@ def check(pid, tier='quick', verif_seed=0, workers=None, n_runs=None,
                 known_hit.setdefault(k['id'], (k, viol, v))
             else:
                 new.setdefault((viol['clause'], viol['sig']), (viol, v))
+    if os.environ.get('VERIF_SAVE_KNOWN'):
+        # maintenance mode: (re)write the committed minimal replay of each
+        # open finding that was reproduced
+        for kid, (k, viol, v) in sorted(known_hit.items()):
+            tgt = (viol['clause'], viol['sig'])
+            try:
+                mplan, msched, _ = minimise(mod, v['plan'], v['sched'], tgt,
+                                            budget_s=20)
+                out = replay_case(mod, mplan, msched)
+                if tgt not in _sig_set(out):
+                    mplan, msched = v['plan'], v['sched']
+                    out = replay_case(mod, mplan, msched)
+                out['violations'] = [x for x in out['violations'] if
+                                     (x['clause'], x['sig']) == tgt]
+                pth = write_replay(pid, v, mplan, msched, out, True)
+                dst = os.path.join(VERIF, k.get('replay') or
+                                   'findings/%s.json' % kid)
+                os.makedirs(os.path.dirname(dst), exist_ok=True)
+                os.replace(pth, dst)
+                lines.append('saved %s' % dst)
+            except Exception as e:  # noqa
+                lines.append('could not save %s: %r' % (kid, e))
     for kid, (k, viol, v) in sorted(known_hit.items()):
         lines.append('KNOWN-FINDING: property=%s %s [%s] (reproduced, run '
                      'seed %s)' % (pid, k.get('text', ''), k['id'],
                                    v['run_seed']))
+    for k in known:
+        if k.get('status') == 'open' and k.get('property') == pid and \
+                k['id'] not in known_hit:
+            lines.append('KNOWN-FINDING: property=%s %s [%s] (listed; not '
+                         'triggered by this run\'s seeds)' % (
+                             pid, k.get('text', ''), k['id']))
     reported = []
     counts = {}
     for v in tot['violating']:
